@@ -553,7 +553,7 @@ def run(prop, tier, only, t0):
         br = RuleResult('EXTRACT', 'fact extraction')
         br.broken('fact extraction failed (AST-level rules D-GUARD / D-ODR not evaluated): %s' % str(e)[:300])
         out.append(br)
-        return finish(prop, tier, spec['level'], out, t0, spec['explanation'], spec['assumptions'], spec['trusted_base'],
+        return finish(prop, tier, spec['level'], out, t0, spec['explanation'] + (' ' + ADDENDA[prop] if prop in ADDENDA else ''), spec['assumptions'], spec['trusted_base'],
                       'cd /verif && python3 -m bgcheck %s --tier %s' % (prop, tier), extra_coverage={}, units=[])
     results = spec['fn'](m, tier)
     flat = []
@@ -602,7 +602,7 @@ def run(prop, tier, only, t0):
     extra['scope'] = 'whole library' if entries is None else '%d entry points, %d functions in their call-graph closure' % (
         len(entries), len(m.closure_tnames(entries)))
     extra['reports_outside_scope_dropped'] = out_of_scope
-    return finish(prop, tier, spec['level'], flat, t0, spec['explanation'], spec['assumptions'], spec['trusted_base'],
+    return finish(prop, tier, spec['level'], flat, t0, spec['explanation'] + (' ' + ADDENDA[prop] if prop in ADDENDA else ''), spec['assumptions'], spec['trusted_base'],
                   'cd /verif && python3 -m bgcheck %s --tier %s' % (prop, tier), extra_coverage=extra, units=units)
 
 
